@@ -6,8 +6,8 @@ META = {
     "thorough_extra": ["mocks", "client-only"],
     "level": "proof",
     "explanation": "Inductive invariant |idle[t]| <= max_idle_per_host: the idle Vec has exactly one growth site "
-                   "(IdleConnections::push, P1), reached only from PoolInner::push, where it is dominated by the edge "
-                   "`idle.len() < config.max_idle_per_host` (P6); the configuration is never written after construction; "
+                   "(IdleConnections::push, P1), reached only from the PoolInner operations that hand a connection back (today: push), each of which - "
+                   "fully spliced - dominates the growth by an edge `len < config.max_idle_per_host` (P6); the configuration is never written after construction; "
                    "every other operation on the Vec shrinks it. All premises are decided on mir_built of every function of the crate."
                    " As built now: the bound is decided by rows of the hand-back table (pooltable.push_table under max_idle_per_host = 1 and 2: at the bound the connection is dropped, below it parked - wherever the comparison lives); the per-origin accounting relies on one token per origin, so the key-consistency rules (derived Eq / Hash of UriKey, TokenMap::insert table) are claimed here too.",
     "trusted_base": ["rustc type/borrow checker (the build succeeded)", "std Vec/HashMap semantics",
